@@ -24,6 +24,7 @@ type TreeBlock struct {
 	Hash   util.Hash
 	Height uint64
 	Parent int
+	Txs    [][]byte // its transactions in wire form (what TX packets carry)
 	CDHi   uint64
 	CDLo   uint64
 }
@@ -52,6 +53,7 @@ type Scen struct {
 	FakeReplace map[string]string // height -> name of an invalid payload served instead
 	FakePush    []string         // names of invalid payloads / "tree:<idx>" pushed unsolicited after STATS
 	FakePushTx  bool
+	FakeTxOf    []int            // tree indices of blocks whose (valid) transactions are relayed as TX packets before any block is served
 	FakeStale   int              // tree index of a block whose (older) statistics are announced after the current ones (0 = none)
 	Grow        []int            // blocks A receives (and broadcasts) while B is synchronising
 	Race        bool             // run under the race detector
@@ -222,6 +224,9 @@ func c11Child(treePath, scenPath, outPath string) {
 		}
 		if sc.FakePushTx {
 			fake.OnConnectTx = tree.BadTx
+		}
+		for _, i := range sc.FakeTxOf {
+			fake.OnConnectTx = append(fake.OnConnectTx, tree.Blocks[i].Txs...)
 		}
 		switch sc.Fault {
 		case "reverse", "dup", "silent":
